@@ -903,6 +903,118 @@ theorem good_ne_crash {β : Type} {r : List Byte} {more : List Nat} {x : Res (St
   subst hx
   exact h
 
+/-- the nesting test of restore_internal_size only ADDS refusals: whenever the pre-pass as coded (`preD`) accepts a
+    text, the pre-pass without the test (`pre`) accepts it with the same result — so everything proved about an
+    accepted pre-pass (`pre_sync`) carries over -/
+theorem preD_pre (mb : MbLen) : ∀ (fuel nest : Nat) (top isMap idx : Bool) (s : List Byte) (size : Nat)
+    (zs : List Nat) (out : PreOut),
+    preD mb fuel nest top isMap idx s size zs = some out → pre mb fuel top isMap idx s size zs = some out := by
+  intro fuel
+  induction fuel with
+  | zero => intro nest top isMap idx s size zs out h; simp [preD] at h
+  | succ f ih =>
+    intro nest top isMap idx s size zs out h
+    cases s with
+    | nil => simp [preD] at h
+    | cons c r0 =>
+      rw [preD.eq_3] at h
+      rw [pre.eq_3]
+      by_cases hlim : (!top && decide (nest > maxDepth)) = true
+      · rw [if_pos hlim] at h
+        simp at h
+      · rw [if_neg hlim] at h
+        generalize hL : (if top = true then List.drop (mbStep mb (c :: r0)) (c :: r0) else r0) = l at h ⊢
+        simp only at h ⊢
+        generalize (if (isMap && !idx) = true then 58 else 44) = d0 at h ⊢
+        generalize (if isMap = true then !idx else idx) = idx' at h ⊢
+        by_cases h34 : c = 34
+        · simp only [h34, if_true] at h ⊢
+          cases top with
+          | true =>
+            simp only [if_true] at h ⊢
+            cases hsk : skipStrMb mb (l.length + 1) l with
+            | open_ => simpa [hsk] using h
+            | closed t =>
+              cases t with
+              | nil => simp [hsk] at h
+              | cons d r' =>
+                simp only [hsk] at h ⊢
+                by_cases hd : d = d0
+                · simp only [hd, if_true] at h ⊢
+                  exact ih _ _ _ _ _ _ _ _ h
+                · simp [hd] at h
+          | false =>
+            simp only [Bool.false_eq_true, if_false] at h ⊢
+            cases hsk : skipStr l with
+            | none => simp [hsk] at h
+            | some t =>
+              cases t with
+              | nil => simp [hsk] at h
+              | cons d r' =>
+                simp only [hsk] at h ⊢
+                by_cases hd : d = d0
+                · simp only [hd, if_true] at h ⊢
+                  exact ih _ _ _ _ _ _ _ _ h
+                · simp [hd] at h
+        · simp only [h34, if_false] at h ⊢
+          by_cases h40 : c = 40
+          · simp only [h40, if_true] at h ⊢
+            cases l with
+            | nil => simp at h
+            | cons k r1 =>
+              simp only at h ⊢
+              by_cases hk : k = 123 ∨ k = 91 ∨ k = 47
+              · simp only [hk, if_true] at h ⊢
+                cases hq : preD mb f (nest + 1) false (decide (k = 91)) false r1 0 [] with
+                | none => simp [hq] at h
+                | some q =>
+                  obtain ⟨t, n, zs'⟩ := q
+                  have hp := ih _ _ _ _ _ _ _ _ hq
+                  cases t with
+                  | nil => simp [hq] at h
+                  | cons d r' =>
+                    simp only [hq, hp] at h ⊢
+                    by_cases hd : d = d0
+                    · simp only [hd, if_true] at h ⊢
+                      exact ih _ _ _ _ _ _ _ _ h
+                    · simp [hd] at h
+              · simp [hk] at h
+          · simp only [h40, if_false] at h ⊢
+            by_cases h93 : c = 93
+            · simp only [h93, if_true] at h ⊢
+              exact h
+            · simp only [h93, if_false] at h ⊢
+              by_cases h47 : c = 47 ∨ c = 125
+              · simp only [h47, if_true] at h ⊢
+                exact h
+              · simp only [h47, if_false] at h ⊢
+                by_cases h58 : c = 58 ∨ c = 44
+                · simp only [h58, if_true] at h ⊢
+                  by_cases hd : c = d0
+                  · simp only [hd, if_true] at h ⊢
+                    exact ih _ _ _ _ _ _ _ _ h
+                  · simp [hd] at h
+                · simp only [h58, if_false] at h ⊢
+                  cases had : afterDelim d0 l with
+                  | none => simp [had] at h
+                  | some r' =>
+                    simp only [had] at h ⊢
+                    exact ih _ _ _ _ _ _ _ _ h
+
+/-- **The C recursion of the size pre-pass is bounded.**  An activation of restore_internal_size at a nesting level
+    beyond MAX_SAVE_SVALUE_DEPTH returns "illegal format" at once, whatever the text — it never opens a further level.
+    Since every recursive call passes `nest + 1` (see `preD`), no more than MAX_SAVE_SVALUE_DEPTH + 1 activations are
+    ever on the C stack, and the value pass recurses only where the pre-pass succeeded.
+    (Before the nesting fix the depth was the nesting of the text: "({({({..." overflowed the stack.) -/
+theorem preD_refuses_beyond_limit (mb : MbLen) (fuel nest : Nat) (isMap idx : Bool) (s : List Byte) (size : Nat)
+    (zs : List Nat) (h : nest > maxDepth) : preD mb fuel nest false isMap idx s size zs = none := by
+  cases fuel with
+  | zero => simp [preD]
+  | succ f =>
+    cases s with
+    | nil => simp [preD]
+    | cons c r => rw [preD.eq_3]; simp [h]
+
 theorem restoreContainer_total (F : FloatOps α) (mb : MbLen) (k : Byte) (s : List Byte) :
     restoreContainer F mb k s ≠ .crash := by
   unfold restoreContainer
@@ -911,7 +1023,8 @@ theorem restoreContainer_total (F : FloatOps α) (mb : MbLen) (k : Byte) (s : Li
   · -- arrays and classes
     split
     · simp
-    · rename_i r n zs hpre
+    · rename_i r n zs hpreD
+      have hpre := preD_pre mb _ _ _ _ _ _ _ _ _ hpreD
       split
       · simp
       · have hne : rdElems F (s.length + 2) s n zs .nil (if k = 123 then .array else .cls) ≠ .crash := by
@@ -930,7 +1043,8 @@ theorem restoreContainer_total (F : FloatOps α) (mb : MbLen) (k : Byte) (s : Li
   · -- mappings
     split
     · simp
-    · rename_i r n zs hpre
+    · rename_i r n zs hpreD
+      have hpre := preD_pre mb _ _ _ _ _ _ _ _ _ hpreD
       split
       · simp
       · rename_i hn
